@@ -2591,4 +2591,28 @@ theorem scanFrames_eq (P L : Nat) (flip : Bool) (pix : List Int) :
     simp only [Function.comp]
     rw [getD_map_range _ _ _ ha]
 
+/-- in a strictly increasing stream the half-open window `[l[a], l[b+1])` selects the elements `a … b` -/
+theorem filter_window_next (l : List Int) (h : Sep 1 id l) (a b : Nat) (hab : a ≤ b)
+    (hb : b + 1 < l.length) :
+    l.filter (fun t => decide (l[a]'(by omega) ≤ t) && decide (t < l[b + 1]))
+      = (l.drop a).take (b + 1 - a) := by
+  rw [← filter_window 1 (by omega) id l h a b hab (by omega) (l[a]'(by omega)) (l[b]'(by omega)) rfl rfl]
+  apply List.filter_congr
+  intro t ht
+  rcases List.getElem_of_mem ht with ⟨i, hi, rfl⟩
+  simp only [id]
+  by_cases hib : i ≤ b
+  · have h1 := h.getElem_le (by omega) (i := i) (j := b) (by omega) hib
+    have h2 := h.getElem_lt (i := b) (j := b + 1) hb (by omega)
+    simp only [id] at h1 h2
+    have e1 : decide (l[i] < l[b + 1]) = true := decide_eq_true (by omega)
+    have e2 : decide (l[i] < l[b] + 1) = true := decide_eq_true (by omega)
+    rw [e1, e2]
+  · have h1 := h.getElem_le (by omega) (i := b + 1) (j := i) hi (by omega)
+    have h2 := h.getElem_lt (i := b) (j := i) hi (by omega)
+    simp only [id] at h1 h2
+    have e1 : decide (l[i] < l[b + 1]) = false := decide_eq_false (by omega)
+    have e2 : decide (l[i] < l[b] + 1) = false := decide_eq_false (by omega)
+    rw [e1, e2]
+
 end Verif.C03
